@@ -4,8 +4,8 @@
    Key names of the JSON object / DLF elements are spelled here (the model works on enumerations). *)
 From Coq Require Import List NArith Bool Ascii.
 From Coq Require Export String.
-From AdltV Require Import Base.Obs.
-From AdltV Require Export Filter.Match Filter.Frontends Filter.FrontendsXml Filter.FrontendsSpec.
+From AdltV Require Import Base.Obs Base.Res.
+From AdltV Require Export Filter.Match Filter.MatchEngine Filter.Frontends Filter.FrontendsXml Filter.FrontendsSpec.
 Import ListNotations.
 Open Scope N_scope.
 
@@ -41,9 +41,11 @@ Definition msg_of (c : cmsg) : msg :=
               end;
      m_text := t; m_lc := lc |}.
 
-(* (engine, pattern, compiles) and (engine, pattern, text, is_match); engines: 0 bytes, 1 fancy, 2 escaped+case-insensitive *)
+(* (engine, pattern, compiles) and (engine, pattern, text, is_match); engines: 0 bytes, 1 fancy, 2 escaped+case-insensitive.
+   The answer of is_match is exported as the engine gave it: 0 = no match, 1 = match, 2 = the engine failed at match
+   time (Err(RuntimeError(..)) of fancy_regex; the other two engines return a plain bool and never answer 2). *)
 Definition vtable := list (N * list N * bool).
-Definition rtable := list (N * list N * list N * bool).
+Definition rtable := list (N * list N * list N * N).
 Definition engine_idx (e : engine) : N := match e with EBytes => 0 | EFancy => 1 | ECi => 2 end.
 
 Fixpoint valid_of (tbl : vtable) (e : engine) (p : pattern) : bool :=
@@ -51,12 +53,17 @@ Fixpoint valid_of (tbl : vtable) (e : engine) (p : pattern) : bool :=
   | [] => false
   | (e', p', b) :: r => if N.eqb (engine_idx e) e' && text_eqb p p' then b else valid_of r e p
   end.
-Fixpoint re_of (tbl : rtable) (e : engine) (p : pattern) (t : text) : bool :=
+Fixpoint ans_of (tbl : rtable) (e : engine) (p : pattern) (t : text) : N :=
   match tbl with
-  | [] => false
+  | [] => 0
   | (e', p', t', b) :: r =>
-      if N.eqb (engine_idx e) e' && text_eqb p p' && text_eqb t t' then b else re_of r e p t
+      if N.eqb (engine_idx e) e' && text_eqb p p' && text_eqb t t' then b else ans_of r e p t
   end.
+(* regex / regex::bytes: bool *)
+Definition re_of (tbl : rtable) (e : engine) (p : pattern) (t : text) : bool := N.eqb (ans_of tbl e p t) 1.
+(* fancy_regex: Result<bool, Error> *)
+Definition fre_of (tbl : rtable) (p : pattern) (t : text) : eans :=
+  match ans_of tbl EFancy p t with 0 => ENoMatch | 1 => EMatch | _ => EError end.
 
 Definition case_C11 := (fe_in * vtable * rtable * list cmsg * option cmsg)%type.
 
@@ -111,22 +118,29 @@ Definition o_sweep (g : msg -> bool) (sw : option cmsg) : otree :=
               T [L (sweep_bits 128 0 (fun v => g (with_vmm m v))); L (sweep_bits 128 128 (fun v => g (with_vmm m v)))]
   end.
 
+(* one call of `matches` under catch_unwind: 0 / 1 = the answer, 2 = it panicked *)
+Definition o_answer (r : res bool) : otree :=
+  match r with Ok b => ob b | Panic _ => L 2 | OutOfFuel => L 3 end.
+Definition answer_bit (r : res bool) : bool := match r with Ok b => b | _ => false end.
+
 Section Run.
   Variable vt : vtable.
   Variable rt : rtable.
   Variable msgs : list cmsg.
   Variable sw : option cmsg.
 
-  Definition o_matches (f : filter) : otree := T (map (fun c => ob (matches (re_of rt) f (msg_of c))) msgs).
+  (* Filter::matches as it is in the code: the payloadRegex engine's answer goes through `unwrap_or(false)` *)
+  Definition matches_x (f : filter) (m : msg) : res bool := matches_total (re_of rt) (fre_of rt) f m.
+  Definition o_matches (f : filter) : otree := T (map (fun c => o_answer (matches_x f (msg_of c))) msgs).
 
   Definition o_roundtrip (f : filter) : otree :=
     match from_json_kv (valid_of vt) (JObject (to_json_kv f)) with
     | None => T [L 1]
-    | Some f' => T [L 0; o_fields f'; o_matches f'; o_sweep (matches (re_of rt) f') sw]
+    | Some f' => T [L 0; o_fields f'; o_matches f'; o_sweep (fun m => answer_bit (matches_x f' m)) sw]
     end.
 
   Definition o_filter (f : filter) : otree :=
-    T [o_fields f; o_matches f; o_sweep (matches (re_of rt) f) sw; o_json (to_json_kv f); o_roundtrip f].
+    T [o_fields f; o_matches f; o_sweep (fun m => answer_bit (matches_x f m)) sw; o_json (to_json_kv f); o_roundtrip f].
 
   Definition o_loaded (r : option (list filter)) : otree :=
     match r with
